@@ -151,6 +151,12 @@ def run(ck, facts, tier):
         ok1 = bool(exits) and bool(final) and all(cfg.must_pass_edges(f, exits) for f in final) and bool(el)
         ext = [c for c in calls(th, "extend") if "last_round" in expr_vars(c["args"][0])]
         ok2 = bool(ext) and has_call(ext[0], "Iterator::filter") and has_call(ext[0], "HashSet::insert") and "closure" in expr_vars(ext[0]) and "next_round" in expr_vars(ext[0])
+        if ok2:
+            # the only thing allowed to keep a clause out of the next round is `closure.insert(clause)` returning false
+            DROPPERS = {"filter", "filter_map", "take", "skip", "take_while", "skip_while", "step_by", "find", "nth", "last", "dedup", "unique", "flat_map"}
+            ads = [str(c.get("fn", "")).split("::")[-1] for c in calls(ext[0]) if str(c.get("fn", "")).split("::")[-1] in DROPPERS]
+            ins = [c for c in calls(ext[0], "HashSet::insert")]
+            ok2 = ads == ["filter"] and len(ins) == 1 and "closure" in expr_vars(ins[0]["args"][0])
         res = [c for c in calls(th, "ProgramClauses::from_iter")]
         ok3 = bool(res) and "closure" in expr_vars(res[0])
         seed = any(st.get("k") == "let" and st["pat"].get("n") == "closure" and "last_round" in expr_vars(st["init"]) for st in walk(th))
